@@ -1340,6 +1340,26 @@ fn gen_hdr(r: &mut Prng, prop: &str) -> Hdr {
     let (s1, s2): (usize, usize) = match page { 4096 => (6 * 4096, 4 * 4096 + 17), 64 => (2048, 1024 + 5), _ => (1024, 513) };
     let (b1, b2) = (0x10_0000u64, 0x100_0000u64);
     let lay = vec![(1usize, b1, s1), (2usize, b2, s2)];
+    if r.chance(1, if prop == "C17" { 40 } else { 120 }) {
+        // a chain longer than any iovec limit: more than 1024 tiny writable descriptors (queues
+        // may have up to 32768 entries); the case's first operation writes across all of them
+        let nw = r.range(1030, 1300) as usize;
+        let mut chain = vec![(false, b1, 16u32)];
+        let mut cur = [32usize, 0usize];
+        let size = [s1, s2];
+        let base = [b1, b2];
+        for k in 0..nw {
+            let reg = if k % 7 == 3 { 1 } else { 0 };
+            let l = if page == 2 || size[reg] < 4096 { 1 } else { 1 + r.below(3) as u32 };
+            if cur[reg] + l as usize + 1 > size[reg] {
+                continue;
+            }
+            let gap = if r.chance(1, 5) { 1 } else { 0 };
+            chain.push((true, base[reg] + (cur[reg] + gap) as u64, l));
+            cur[reg] += gap + l as usize;
+        }
+        return Hdr { fusedev: false, page, lay, chain, req: 0, cap: 0, am: false };
+    }
     loop {
         let nr = r.below(6) as usize;
         let nw = if prop == "C17" { r.range(1, 6) } else { r.below(7) } as usize;
@@ -1594,6 +1614,7 @@ fn main() {
         h.am = asyncm;
         let nops = r.range(1, 40) as usize;
         let mut cnt = 0;
+        let long_chain = h.chain.len() > 1024;
         let res = catch_unwind(AssertUnwindSafe(|| {
             let rr = &mut r;
             let mut next = |info: &Info| {
@@ -1601,6 +1622,11 @@ fn main() {
                     return None;
                 }
                 cnt += 1;
+                if long_chain && cnt == 1 && !info.writers.is_empty() {
+                    // one write across (nearly) the whole chain
+                    let a = info.writers[0];
+                    return Some(OpS { k: "wr".into(), h: 0, n: a - rr.below(3).min(a as u64) as usize, seed: rr.below(200), ..Default::default() });
+                }
                 gen_op(rr, info, &prop)
             };
             if h.fusedev { run_fusedev(&h, sock, &mut next) } else { run_virtio(&h, sock, &mut next) }
